@@ -102,6 +102,11 @@ fn main() {
             println!("{}", replay::run(&spec, &PathBuf::from(get("out", "work/replay"))));
             0
         }
+        "hostiledir" => {
+            let cfgs: Vec<String> = get("cfgs", "phys").split(';').map(|s| s.to_string()).collect();
+            println!("{}", hostile::run_hostile_dir(&cfgs, &PathBuf::from(get("out", "work/hostiledir"))));
+            0
+        }
         "emb" => {
             println!("{}", embrun::run(&PathBuf::from(get("out", "work/emb"))));
             0
